@@ -74,18 +74,19 @@ type histRun struct {
 	dead   bool // the history cannot continue (panic, wedged lock, refused restart)
 	tag    string
 	// results are collected per history (histories run concurrently) and merged by the suite
-	counts  map[string]int
-	fails   []core.Failure
-	newGCAs map[glow.PublicKey]keyPair
-	prop    string // "C11" | "C17": which property's clauses the oracle judges
-	plain   bool   // accepted replies repeat the client's list unchanged (deterministic scenarios)
+	counts         map[string]int
+	fails          []core.Failure
+	newGCAs        map[glow.PublicKey]keyPair
+	prop           string // "C11" | "C17": which property's clauses the oracle judges
+	lastOrderEmpty bool   // the last adopted migration order had an empty server list
+	plain          bool   // accepted replies repeat the client's list unchanged (deterministic scenarios)
 }
 
 func (h *histRun) count(c string) { h.counts[c]++ }
 
 // oracle clauses that belong to C17 only (the rogue suite of C11 does not judge them)
 var c17Only = map[string]bool{"entry-altered": true, "banned-entry-rewritten": true, "identity-changed": true, "migration-list": true,
-	"entered-unsigned": true, "ban-dropped": true, "persist-mismatch": true, "restart-differs": true, "restart-refused-empty-server-list": true}
+	"entered-unsigned": true, "ban-dropped": true, "migration-ban-lost": true, "persist-mismatch": true, "restart-differs": true, "restart-refused-empty-server-list": true}
 
 func (h *histRun) fail(what, key string, replay interface{}) {
 	if h.prop == "C11" && c17Only[key] {
@@ -200,8 +201,8 @@ func (h *histRun) load() {
 		h.count("hist.load.refused")
 		if before != nil {
 			key := "restart-refused"
-			if len(before.Servers) == 0 {
-				key = "restart-refused-empty-server-list"
+			if len(before.Servers) == 0 && h.lastOrderEmpty {
+				key = "restart-refused-empty-server-list" // K7: the adopted order itself named no server
 			}
 			h.fail("client does not restart from the files it persisted: "+err.Error(), key, map[string]interface{}{"history": h.tag, "desc": h.desc})
 		}
@@ -361,6 +362,13 @@ func (h *histRun) round(plan map[glow.PublicKey]beh, label string) {
 			if len(amap) != len(want) {
 				h.fail("after a migration the list is not the order's list", "migration-list", replay)
 			}
+			for _, s := range accepted.mig.NewServers {
+				if g, ok := amap[s.PublicKey]; s.Banned && ok && !g.Banned {
+					h.fail("a server that the adopted migration order lists as banned is not banned in the client's new list", "migration-ban-lost", replay)
+					break
+				}
+			}
+			h.lastOrderEmpty = len(accepted.mig.NewServers) == 0
 		}
 	} else {
 		for k, g := range bmap {
@@ -581,6 +589,28 @@ func (h *histRun) mkBeh(kind string, f *fakeSrv, known map[glow.PublicKey]client
 				signer = h.gca // signed by the OLD GCA: not acceptable for the new list
 			}
 			ns = append(ns, h.signedEntry(signer, nf, j > 0 && h.rng.Chance(20)))
+		}
+		forced := strings.Contains(h.tag, "-chain") // the scripted chain histories always carry both constructions
+		if kind == "migrate" && (h.rng.Chance(50) || forced) {
+			// the new GCA re-authorizes servers the client already knows (the usual migration: the GCA replaces
+			// its key and keeps its servers); their old entries say nothing about the new list
+			var re []server.AuthorizedServer
+			for _, kk := range sortedKeys(known) {
+				if fk, ok := h.fakes[kk]; ok && (h.rng.Chance(70) || forced) {
+					re = append(re, h.signedEntry(ng, fk, known[kk].Banned))
+				}
+			}
+			if h.rng.Bool() {
+				ns = append(re, ns...)
+			} else {
+				ns = append(ns, re...)
+			}
+			h.count("order.known-servers")
+		}
+		if kind == "migrate" && (h.rng.Chance(30) || forced) { // a ban followed by the older, unbanned authorization of the same key: the ban stands
+			x := newKey().pub
+			ns = append(ns, mkAS(h.tab, ng, x, true, "127.0.0.4", 4, 5, 6), mkAS(h.tab, ng, x, false, "127.0.0.4", 4, 5, 6))
+			h.count("order.ban-then-older-entry")
 		}
 		if kind == "migrate" && h.rng.Chance(30) && k > 0 { // duplicate key inside the order: first entry wins unless the later one is a ban
 			ns = append(ns, mkAS(h.tab, ng, ns[0].PublicKey, h.rng.Bool(), "127.0.0.3", 1, 2, 3))
